@@ -428,8 +428,20 @@ func (z *Z) list(l List, extraOK bool, avoidMarker byte) []ln {
 		}
 		w := len(marker) + gap
 		inner := z.blocks(it, l.Tight, false, mk)
+		emptyFirst := false
+		if _, isCode := it[0].(ICode); i > 0 && !isCode && coin(z.s, 1, 6) {
+			// an item may begin with one blank line: the marker stands alone and the content starts on the next
+			// line at the column after "marker + one space" (not for the first item: an empty item cannot
+			// interrupt a paragraph in front of the list)
+			emptyFirst = true
+			w = len(marker) + 1
+			out = append(out, ln{s: base + marker + sp(z.s.Intn(3))})
+			z.note("item-begins-with-blank-line")
+		}
 		for j, x := range inner {
 			switch {
+			case j == 0 && emptyFirst:
+				out = append(out, ln{s: base + sp(w) + x.s, sc: len(base) + w + x.sc})
 			case j == 0:
 				out = append(out, ln{s: base + marker + sp(gap) + x.s, sc: len(base) + w + x.sc})
 			case x.s == "" && x.blank:
